@@ -26,7 +26,7 @@ Print Assumptions race_graph_modelled.
 Theorem race_sites_covered : forall s, In s gen_race_sites ->
   exists g x sched w',
     cm_get (s_fun s) (classes_of gen_race_edges) = [g] /\
-    resolve_field gen_race_decls (s_type s) (s_field s) = Some x /\
+    resolve_field gen_race_decls gen_race_sites (classes_of gen_race_edges) (s_type s) (s_field s) = Some x /\
     In (g, x, w') (acc_classes (trace (step repaired) init sched)) /\ (s_write s = true -> w' = true) /\
     races (trace (step repaired) init sched) = [].
 Proof. exact (graph_ok_sites_race_free _ _ _ _ race_graph_modelled). Qed.
